@@ -380,6 +380,9 @@ def lua_check(res, known, args):
     for pid, why in bad[:3]:
         res.violation({"kind": "lua", "what": "program %s is inside the fragment on which the dissector is correct (lua_frag), but the emitted dissector attributes wrong ranges: %s" % (pid, why),
                        "program": pid, "rerun": "cd /verif && python3 harness/lua.py %s --show 20" % ncfg}, found=True)
+    for m2 in re.findall(r"^NEW-DEVIATION (\S+) \[(\S+)\] (.*)$", out, re.M)[:3]:
+        res.violation({"kind": "lua", "what": "the emitted dissector of program %s attributes wrong ranges on sample message '%s' where the generator model does not: %s" % (m2[0], m2[1], m2[2][:600]),
+                       "program": m2[0], "message": m2[1], "rerun": "cd /verif && python3 harness/lua.py %s --show 20" % ncfg}, found=True)
     if mism:
         blocks = re.findall(r"  ---- (\S+) part (\S+)\n((?:     .*\n)*)", out)
         res.violation({"kind": "correspondence", "what": "the emitted Lua differs from the generator model (coq/Gen/Lua.v) for %d programs" % mism,
